@@ -104,7 +104,7 @@ var props = map[string]propInfo{
 	"C14": {Level: "exploration", QuickS: 25, ThoroughS: 600},
 	"C15": {Level: "exploration", QuickS: 20, ThoroughS: 600},
 	"C16": {Level: "exploration", QuickS: 20, ThoroughS: 600},
-	"C17": {Level: "exploration", QuickS: 25, ThoroughS: 900, NeedsB: true, NeedsRace: true, Checks: 3},
+	"C17": {Level: "exploration", QuickS: 40, ThoroughS: 900, NeedsB: true, NeedsRace: true, Checks: 3},
 	"C18": {Level: "exploration", QuickS: 25, ThoroughS: 600},
 	"C19": {Level: "exploration", QuickS: 20, ThoroughS: 600, Checks: 10},
 	// self tests (not properties)
